@@ -221,6 +221,42 @@ def stimulus_under_hashseed(stimuli, seed, sim_time, hashseed):
     return json.loads(p.stdout.strip().split("\n")[-1])
 
 
+def run_calls_fresh(calls, timeout=300):
+    """the stiffness-checked analysis() calls `calls`, one after the other in one fresh interpreter (harness/core/c14_runner.py)"""
+    import subprocess
+    import sys
+    env = dict(os.environ)
+    env["PYTHONHASHSEED"] = "0"
+    p = subprocess.run([sys.executable, os.path.join(tb.VERIF, "harness", "core", "c14_runner.py")],
+                       input=json.dumps({"calls": calls, "verif": tb.VERIF, "repo": tb.REPO}), stdout=subprocess.PIPE, stderr=subprocess.PIPE,
+                       text=True, timeout=timeout, env=env, cwd=tb.REPO)
+    if p.returncode != 0 or not p.stdout.strip():
+        return {"runner_error": p.stderr[-400:]}
+    return json.loads(p.stdout.strip().split("\n")[-1])
+
+
+def case_history(case):
+    return {"alone": run_calls_fresh([case["probe"]]), "after": run_calls_fresh(case["history"] + [case["probe"]])}
+
+
+def _history_cases(rng, n):
+    """a model analysed after ANOTHER model that uses the same variable / parameter names with other initial values,
+    parameter values and stimuli, vs. the same model analysed first in a fresh interpreter"""
+    out = []
+    for i in range(n):
+        iv1, iv2 = rng.sample(["1", "0.5", "20", "-2", "4"], 2)
+        k1, k2 = rng.sample(["2000", "50", "5"], 2)
+
+        def model(iv, k, rate):
+            return {"dynamics": [{"expression": "y1' = -k * y1 + y2**2", "initial_value": iv},
+                                 {"expression": "y2' = -y2 * y1 - y2 / tau", "initial_value": "0.5"}],
+                    "parameters": {"k": k, "tau": "0.01"},
+                    "stimuli": [{"type": "poisson_generator", "rate": rate, "variables": ["y1"]}],
+                    "options": {"sim_time": 0.02, "max_step_size": 0.005}}
+        out.append({"history": [model(iv1, k1, "500.0")], "probe": model(iv2, k2, rng.choice(["500.0", "200.0"]))})
+    return out
+
+
 def _quads(rng, n):
     """step-size quadruples incl. all 27 below/at/above patterns x ratio settings"""
     out = []
@@ -390,6 +426,24 @@ def run(ctx, driver):
             if a.get("events") != ev:
                 ctx.tie_break("corr:stiff-proto", {"input": p, "model_head": (a.get("events") or a)[:6] if isinstance(a.get("events"), list) else a,
                                                    "impl_head": ev[:6], "model_len": len(a.get("events") or []), "impl_len": len(ev)})
+    # ---- (b') the benchmark of a model must not depend on what was benchmarked earlier in the same process
+    hcases = _history_cases(ctx.rng("history"), ctx.n(3, 16))
+    hres = pool.run_cases("harness.props.c14", "case_history", hcases, timeout=400, deadline=ctx.deadline())
+    for hc, hr in zip(hcases, hres):
+        ctx.evaluations += 1
+        if hr.get("timeout") or hr.get("skipped_budget") or hr.get("harness_error") or "runner_error" in hr.get("alone", {}) or "runner_error" in hr.get("after", {}):
+            ctx.count("history_skipped")
+            if hr.get("harness_error") or "runner_error" in str(hr):
+                ctx.cov.setdefault("harness_errors", []).append(str(hr)[:300])
+            continue
+        ctx.count("history_pairs")
+        ctx.note_nontrivial("history:" + json.dumps(hc, sort_keys=True))
+        a, b = hr["alone"]["calls"][-1], hr["after"]["calls"][-1]
+        if a != b:
+            ctx.fail("benchmark-depends-on-earlier-analysis", hc,
+                     {"expected": "same input, same seed -> same measured step sizes and recommendation, whatever was analysed before in the process",
+                      "probe_first_in_fresh_interpreter": a, "probe_after_history": b,
+                      "signature": {"site": "check_stiffness", "what": "process history"}})
     # ---- (c) "reproducible for a fixed seed": the stimulus generated for a fixed seed must not depend on the interpreter's
     #      hash randomisation (fresh interpreters under different PYTHONHASHSEED values)
     rng3 = ctx.rng("hashseed")
